@@ -305,10 +305,24 @@ def _sig(b, bb, isval, notes):
 
 
 def decode_table(F):
+    """the decoder's term table; masks are *effective* masks (the bits of the byte that survive the shift in a
+    u32: `(b & 0x7f) << 28`, `(b & 0x0f) << 28` and `b << 28` all keep the low four bits)"""
+    t, notes = _decode_table_raw(F)
+    if t is not None:
+        for x in t["terms"]:
+            if isinstance(x.get("mask"), int) and isinstance(x.get("shift"), int) and 0 <= x["shift"] < 32:
+                x["mask"] = x["mask"] & (0xFFFFFFFF >> x["shift"]) & 0xFF
+    return t, notes
+
+
+def _decode_table_raw(F):
     b = F.body(A("varint_decode"))
     notes = []
     if b.loops():
-        return None, ["varint_decode32 contains a loop (shape not recognised)"]
+        t = _decode_loop_idiom(b, notes)
+        if t is None:
+            return None, ["varint_decode32 contains a loop that is not the recognised LEB128 accumulation loop: " + "; ".join(notes)]
+        return t, []
     lp = calls(b, A("varint_length"))
     if len(lp) != 1:
         return None, [f"{len(lp)} calls to varint_length_packed"]
@@ -411,6 +425,126 @@ def _is_first_byte(b, e):
         p = p.strip()
         return p.k == "call" and p.x["path"].endswith("::first") and is_arg(p.a[0], "data")
     return False
+
+
+def _decode_window(b, lp):
+    w = b.arg_exprs(lp[0][0])[0].strip()
+    if w.k == "call" and w.x["path"].endswith("::index") and w.a[1].k == "agg" and (w.a[1].x.get("adt") or "").endswith("RangeTo") and is_arg(w.a[0], "data"):
+        lim = w.a[1].a[0].strip()
+        if lim.k == "call" and lim.x["path"].endswith("::min"):
+            ks = [fold(x) for x in lim.a]
+            ls = [x for x in lim.a if is_call(x, "::len") and is_arg(x.strip().a[0], "data")]
+            if len(ls) == 1 and any(k is not None for k in ks):
+                return [k for k in ks if k is not None][0]
+    return None
+
+
+def _decode_loop_idiom(b, notes):
+    """the second accepted form of the decoder:
+           let len = varint_length_packed(&data[..data.len().min(5)]) as usize;
+           let mut val = (data[0] & 0x7f) as u32;
+           for (i, byte) in data[..len].iter().enumerate().skip(1) { val |= ((byte & 0x7f) as u32) << (7 * i as u32); }
+           *value = val; len
+    checked element by element; it computes the canonical five-term table, which is returned"""
+    loops = b.loops()
+    if len(loops) != 1:
+        notes.append(f"{len(loops)} loops")
+        return None
+    header, blks = loops[0]
+    lp = calls(b, A("varint_length"))
+    if len(lp) != 1 or lp[0][0].bb in blks:
+        notes.append("the length scanner is not called exactly once before the loop")
+        return None
+    window = _decode_window(b, lp)
+    st = [(s, x) for s, x in b.sites() if s.i is not None and x["s"] == "assign" and x["pl"]["p"] == ["*"] and b.local_name(x["pl"]["l"]) == "value"]
+    if len(st) != 1 or st[0][0].bb in blks:
+        notes.append("no single `*value = val` after the loop")
+        return None
+    op = st[0][1]["rv"].get("op")
+    if not (st[0][1]["rv"]["rv"] == "use" and op["k"] in ("copy", "move") and not op["pl"]["p"]):
+        notes.append("`*value = ..` is not a plain local")
+        return None
+    V = _var_of(b, op, st[0][0])
+    d = b.defs()[0]
+    vd = d.get(V, [])
+    init = [x for x in vd if x[0].bb not in blks]
+    upd = [x for x in vd if x[0].bb in blks]
+    if len(init) != 1 or len(upd) != 1 or len(vd) != 2:
+        notes.append("val is not defined once before the loop and once in it")
+        return None
+    t0 = _dec_term(b._expr_of_def(init[0]))
+    if t0 != (0, 0x7F, 0):
+        notes.append(f"val starts as {b._expr_of_def(init[0]).show()[:50]} (expected (data[0] & 0x7f) as u32)")
+        return None
+    up = upd[0][2]
+    if not (upd[0][1] == "assign" and up["rv"] == "bin" and up["op"] == "BitOr"):
+        notes.append("val is not updated with `|=`")
+        return None
+    sides = [up["a"], up["b"]]
+    own = [x for x in sides if x.get("k") in ("copy", "move") and not x["pl"]["p"] and _var_of(b, x, upd[0][0]) == V]
+    other = [x for x in sides if x not in own]
+    if len(own) != 1 or len(other) != 1:
+        notes.append("`val |= term` does not OR into val itself")
+        return None
+    term = b.expr_of_operand(other[0], upd[0][0]).strip()
+    if not (term.k == "bin" and term.x["op"] in ("Shl", "ShlUnchecked")):
+        notes.append(f"term is {term.show()[:60]}")
+        return None
+    x, sh = term.a[0].strip(), term.a[1]
+    # x = ((byte & 0x7f) as u32)
+    if not (x.k == "cast" and x.x["to"] == "u32"):
+        notes.append("term is not widened to u32 before the shift")
+        return None
+    y = x.a[0].strip()
+    mask, byte = None, None
+    if y.k == "bin" and y.x["op"] == "BitAnd":
+        ks = [fold(z) for z in y.a]
+        if ks[1] is not None:
+            mask, byte = ks[1], y.a[0]
+        elif ks[0] is not None:
+            mask, byte = ks[0], y.a[1]
+    elif y.k == "call" and y.x["path"].endswith("::bitand") and len(y.a) == 2 and fold(y.a[1]) is not None:
+        mask, byte = fold(y.a[1]), y.a[0]
+    if mask != 0x7F or byte is None:
+        notes.append(f"payload mask is {mask}")
+        return None
+    # shift = 7 * (i as u32)
+    cs = checked(sh) or ((sh.strip().x["op"], sh.strip().a[0], sh.strip().a[1]) if sh.strip().k == "bin" else None)
+    if not (cs and cs[0] == "Mul"):
+        notes.append("shift is not 7 * i")
+        return None
+    k0, k1 = fold(cs[1]), fold(cs[2])
+    idx = cs[2] if k0 == 7 else (cs[1] if k1 == 7 else None)
+    if idx is None:
+        notes.append("shift is not a multiple of 7 bits")
+        return None
+    # byte and i are the two halves of one item of data[..len].iter().enumerate().skip(1)
+    bi = byte.strip()
+    ii = strip_casts(idx).strip()
+    item_b = bi.a[0] if bi.k == "field" and bi.x.get("idx") == 1 else None
+    item_i = ii.a[0] if ii.k == "field" and ii.x.get("idx") == 0 else None
+    if item_b is None or item_i is None or item_b.ident() != item_i.ident():
+        notes.append("byte and index do not come from the same enumerate() item")
+        return None
+    src = unwrap_payload(item_b, "Some")
+    chain = [w.x["path"].rsplit("::", 1)[-1] for w in (src.walk() if src is not None else []) if w.k == "call"]
+    want_chain = {"next", "into_iter", "skip", "enumerate", "iter", "index"}
+    sk = [w for w in (src.walk() if src is not None else []) if w.k == "call" and w.x["path"].endswith("::skip")]
+    ix = [w for w in (src.walk() if src is not None else []) if w.k == "call" and w.x["path"].endswith("::index")]
+    okc = src is not None and {"skip", "enumerate", "iter"} <= set(chain) and set(chain) <= want_chain | {"deref", "min", "len", A("varint_length").rsplit("::", 1)[-1]} and len(sk) == 1 and fold(sk[0].a[1]) == 1 \
+        and chain.index("skip") < chain.index("enumerate") if (src is not None and "skip" in chain and "enumerate" in chain) else False
+    if not okc:
+        notes.append(f"the loop does not run over data[..len].iter().enumerate().skip(1) ({chain})")
+        return None
+    okr = len(ix) >= 1 and is_arg(ix[0].a[0], "data") and ix[0].a[1].k == "agg" and (ix[0].a[1].x.get("adt") or "").endswith("RangeTo") \
+        and any(w.k == "call" and w.x.get("site") == lp[0][0] for w in ix[0].a[1].walk())
+    if not okr:
+        notes.append("the loop does not stop at the scanned length")
+        return None
+    ret = b.expr_at_return()
+    returns_len = all(strip_casts(r).strip().k == "call" and strip_casts(r).strip().x.get("site") == lp[0][0] for r in flat_alts(ret))
+    terms = [{"index": i, "mask": 0x7F, "shift": 7 * i, "accumulate": i > 0, "min_len": i + 1 if i > 0 else 1} for i in range(5)]
+    return {"window": window, "terms": terms, "returns_len": returns_len, "store_dominated": True, "_loop_index": ii.ident()}
 
 
 def _min_len(g):
@@ -556,9 +690,9 @@ def leb128_conditions(enc, dec, scan):
     res.append(("decode-window", dec["window"] == 5, f"the length scanner sees the first min(len, {dec['window']}) bytes (expected 5)"))
     res.append(("decode-returns-length", bool(dec["returns_len"]), "varint_decode32 returns the scanned length as the number of bytes consumed"))
     terms = dec["terms"]
-    want_t = [{"index": i, "mask": 0x7F if i < 4 else 0xFF, "shift": 7 * i, "accumulate": i > 0, "min_len": i + 1 if i > 0 else 1} for i in range(5)]
-    ok = len(terms) == 5 and all(t["index"] == w["index"] and t["shift"] == w["shift"] and t["accumulate"] == w["accumulate"] and t["min_len"] == w["min_len"] and (t["mask"] == w["mask"] or (t["index"] == 4 and t["mask"] in (0x7F, 0x0F, 0xFF))) for t, w in zip(terms, want_t))
-    res.append(("decode-terms", ok, f"decode ORs {[(t['index'], hex(t['mask']), t['shift'], t['min_len']) for t in terms]} as (byte, mask, shift, needs len >=) (expected payload mask 0x7f, shifts 0,7,14,21,28, term i only when length > i)"))
+    want_t = [{"index": i, "mask": 0x7F if i < 4 else 0x0F, "shift": 7 * i, "accumulate": i > 0, "min_len": i + 1 if i > 0 else 1} for i in range(5)]
+    ok = len(terms) == 5 and all(t["index"] == w["index"] and t["shift"] == w["shift"] and t["accumulate"] == w["accumulate"] and t["min_len"] == w["min_len"] and t["mask"] == w["mask"] for t, w in zip(terms, want_t))
+    res.append(("decode-terms", ok, f"decode ORs {[(t['index'], hex(t['mask']), t['shift'], t['min_len']) for t in terms]} as (byte, mask, shift, needs len >=) (expected effective payload mask 0x7f — 0x0f for the fifth byte, whose upper bits are shifted out —, shifts 0,7,14,21,28, term i only when length > i)"))
     # agreement
     sh_e = sorted({s for r in enc for (s, m) in r["stores"].values()})
     sh_d = sorted({t["shift"] for t in terms})
